@@ -65,12 +65,47 @@ def _fold_return_locals(tree: ast.AST) -> int:
     return folds
 
 
+class _ConstantAttrAccess(ast.NodeTransformer):
+    """`getattr(x, "name")` (two arguments, a literal identifier) IS `x.name`, and the statement `setattr(x, "name", v)` IS
+    `x.name = v`: every rule reads them that way (a census of who reads / writes an attribute must not depend on the spelling)."""
+
+    def __init__(self):
+        self.count = 0
+
+    def visit_Call(self, node):
+        self.generic_visit(node)
+        if isinstance(node.func, ast.Name) and node.func.id == "getattr" and len(node.args) == 2 and not node.keywords \
+                and isinstance(node.args[1], ast.Constant) and isinstance(node.args[1].value, str) and node.args[1].value.isidentifier() \
+                and not isinstance(node.args[0], ast.Starred):
+            self.count += 1
+            return ast.copy_location(ast.Attribute(value=node.args[0], attr=node.args[1].value, ctx=ast.Load()), node)
+        return node
+
+    def visit_Expr(self, node):
+        self.generic_visit(node)
+        c = node.value
+        if isinstance(c, ast.Call) and isinstance(c.func, ast.Name) and c.func.id == "setattr" and len(c.args) == 3 and not c.keywords \
+                and isinstance(c.args[1], ast.Constant) and isinstance(c.args[1].value, str) and c.args[1].value.isidentifier():
+            self.count += 1
+            tgt = ast.copy_location(ast.Attribute(value=c.args[0], attr=c.args[1].value, ctx=ast.Store()), c)
+            return ast.copy_location(ast.Assign(targets=[tgt], value=c.args[2], lineno=node.lineno), node)
+        return node
+
+
 class Module:
     def __init__(self, name: str, path: str, source: str):
         self.name = name
         self.path = path
         self.source = source
         self.tree = ast.parse(source, filename=path)
+        if "getattr" in source or "setattr" in source:
+            shadowed = any(isinstance(n, (ast.FunctionDef, ast.ClassDef)) and n.name in ("getattr", "setattr") or
+                           isinstance(n, ast.Name) and isinstance(n.ctx, ast.Store) and n.id in ("getattr", "setattr") or
+                           isinstance(n, ast.arg) and n.arg in ("getattr", "setattr") for n in ast.walk(self.tree))
+            if not shadowed:
+                tr = _ConstantAttrAccess()
+                self.tree = ast.fix_missing_locations(tr.visit(self.tree))
+                self.constant_attr_accesses = tr.count
         self.folded_returns = _fold_return_locals(self.tree)
         self.digest = hashlib.sha256(source.encode()).hexdigest()[:16]
         for node in ast.walk(self.tree):
